@@ -125,14 +125,15 @@ pub trait Dec: Sized + fmt::Display + fmt::Debug {
     fn to_f(&self, ty: &str) -> Option<Option<u64>>;
     fn from_f(ty: &str, bits: u64) -> Option<Option<Self>>;
     fn consts() -> Option<String>;
+    fn zero_v() -> Self;
     // the same operations through the conversion traits (`FromStr`, `TryFrom<&str>`, `From`/`TryFrom` between decimals and
     // primitives): separate impls in the crate, so separate entry points here. `via`: 1 = FromStr, 2 = TryFrom<&str>
     fn parse_via(s: &str, via: u8) -> Result<Self, decstr::Error>;
     fn to_int_t(self, ty: &str) -> Option<Option<i128>>;
     fn to_u128_t(self) -> Option<u128>;
-    fn from_int_t(ty: &str, v: i128, vu: u128) -> Option<Option<Self>>;
+    fn from_int_t(ty: &str, v: i128, vu: u128) -> Option<Result<Self, String>>;
     fn to_f_t(self, ty: &str) -> Option<Option<u64>>;
-    fn from_f_t(ty: &str, bits: u64) -> Option<Option<Self>>;
+    fn from_f_t(ty: &str, bits: u64) -> Option<Result<Self, String>>;
 }
 
 macro_rules! impl_into_opt {
@@ -207,6 +208,9 @@ macro_rules! impl_dec_common {
                 _ => return None,
             })
         }
+        fn zero_v() -> Self {
+            $t::zero()
+        }
         fn parse_via(s: &str, via: u8) -> Result<Self, decstr::Error> {
             match via {
                 1 => s.parse::<$t>(),
@@ -216,47 +220,47 @@ macro_rules! impl_dec_common {
         }
         fn to_int_t(self, ty: &str) -> Option<Option<i128>> {
             Some(match ty {
-                "i8" => <i8 as TryFrom<$t>>::try_from(self).ok().map(|v| v as i128),
-                "i16" => <i16 as TryFrom<$t>>::try_from(self).ok().map(|v| v as i128),
-                "i32" => <i32 as TryFrom<$t>>::try_from(self).ok().map(|v| v as i128),
-                "i64" => <i64 as TryFrom<$t>>::try_from(self).ok().map(|v| v as i128),
-                "i128" => <i128 as TryFrom<$t>>::try_from(self).ok(),
-                "u8" => <u8 as TryFrom<$t>>::try_from(self).ok().map(|v| v as i128),
-                "u16" => <u16 as TryFrom<$t>>::try_from(self).ok().map(|v| v as i128),
-                "u32" => <u32 as TryFrom<$t>>::try_from(self).ok().map(|v| v as i128),
-                "u64" => <u64 as TryFrom<$t>>::try_from(self).ok().map(|v| v as i128),
+                "i8" => okf(<i8 as TryFrom<$t>>::try_from(self)).map(|v| v as i128),
+                "i16" => okf(<i16 as TryFrom<$t>>::try_from(self)).map(|v| v as i128),
+                "i32" => okf(<i32 as TryFrom<$t>>::try_from(self)).map(|v| v as i128),
+                "i64" => okf(<i64 as TryFrom<$t>>::try_from(self)).map(|v| v as i128),
+                "i128" => okf(<i128 as TryFrom<$t>>::try_from(self)),
+                "u8" => okf(<u8 as TryFrom<$t>>::try_from(self)).map(|v| v as i128),
+                "u16" => okf(<u16 as TryFrom<$t>>::try_from(self)).map(|v| v as i128),
+                "u32" => okf(<u32 as TryFrom<$t>>::try_from(self)).map(|v| v as i128),
+                "u64" => okf(<u64 as TryFrom<$t>>::try_from(self)).map(|v| v as i128),
                 _ => return None,
             })
         }
         fn to_u128_t(self) -> Option<u128> {
-            <u128 as TryFrom<$t>>::try_from(self).ok()
+            okf(<u128 as TryFrom<$t>>::try_from(self))
         }
-        fn from_int_t(ty: &str, v: i128, vu: u128) -> Option<Option<Self>> {
+        fn from_int_t(ty: &str, v: i128, vu: u128) -> Option<Result<Self, String>> {
             Some(match ty {
-                "i8" => <$t as TryFrom<i8>>::try_from(v as i8).ok(),
-                "i16" => <$t as TryFrom<i16>>::try_from(v as i16).ok(),
-                "i32" => <$t as TryFrom<i32>>::try_from(v as i32).ok(),
-                "i64" => <$t as TryFrom<i64>>::try_from(v as i64).ok(),
-                "i128" => <$t as TryFrom<i128>>::try_from(v).ok(),
-                "u8" => <$t as TryFrom<u8>>::try_from(vu as u8).ok(),
-                "u16" => <$t as TryFrom<u16>>::try_from(vu as u16).ok(),
-                "u32" => <$t as TryFrom<u32>>::try_from(vu as u32).ok(),
-                "u64" => <$t as TryFrom<u64>>::try_from(vu as u64).ok(),
-                "u128" => <$t as TryFrom<u128>>::try_from(vu).ok(),
+                "i8" => rs(<$t as TryFrom<i8>>::try_from(v as i8)),
+                "i16" => rs(<$t as TryFrom<i16>>::try_from(v as i16)),
+                "i32" => rs(<$t as TryFrom<i32>>::try_from(v as i32)),
+                "i64" => rs(<$t as TryFrom<i64>>::try_from(v as i64)),
+                "i128" => rs(<$t as TryFrom<i128>>::try_from(v)),
+                "u8" => rs(<$t as TryFrom<u8>>::try_from(vu as u8)),
+                "u16" => rs(<$t as TryFrom<u16>>::try_from(vu as u16)),
+                "u32" => rs(<$t as TryFrom<u32>>::try_from(vu as u32)),
+                "u64" => rs(<$t as TryFrom<u64>>::try_from(vu as u64)),
+                "u128" => rs(<$t as TryFrom<u128>>::try_from(vu)),
                 _ => return None,
             })
         }
         fn to_f_t(self, ty: &str) -> Option<Option<u64>> {
             Some(match ty {
-                "f32" => <f32 as TryFrom<$t>>::try_from(self).ok().map(|f| f.to_bits() as u64),
-                "f64" => <f64 as TryFrom<$t>>::try_from(self).ok().map(|f| f.to_bits()),
+                "f32" => okf(<f32 as TryFrom<$t>>::try_from(self)).map(|f| f.to_bits() as u64),
+                "f64" => okf(<f64 as TryFrom<$t>>::try_from(self)).map(|f| f.to_bits()),
                 _ => return None,
             })
         }
-        fn from_f_t(ty: &str, bits: u64) -> Option<Option<Self>> {
+        fn from_f_t(ty: &str, bits: u64) -> Option<Result<Self, String>> {
             Some(match ty {
-                "f32" => <$t as TryFrom<f32>>::try_from(f32::from_bits(bits as u32)).ok(),
-                "f64" => <$t as TryFrom<f64>>::try_from(f64::from_bits(bits)).ok(),
+                "f32" => rs(<$t as TryFrom<f32>>::try_from(f32::from_bits(bits as u32))),
+                "f64" => rs(<$t as TryFrom<f64>>::try_from(f64::from_bits(bits))),
                 _ => return None,
             })
         }
@@ -355,6 +359,37 @@ fn big_len(txt: &str) -> usize {
 #[cfg(not(feature = "big"))]
 fn big_len(_: &str) -> usize {
     0
+}
+
+/// the error types of the `TryFrom` impls: `decstr::Error`, or `Infallible` where `From` is offered
+pub trait ErrText {
+    fn text(&self) -> String;
+}
+impl ErrText for decstr::Error {
+    fn text(&self) -> String {
+        let _ = format!("{:?}", self);
+        self.to_string()
+    }
+}
+impl ErrText for core::convert::Infallible {
+    fn text(&self) -> String {
+        match *self {}
+    }
+}
+fn rs<T, E: ErrText>(r: Result<T, E>) -> Result<T, String> {
+    r.map_err(|e| e.text())
+}
+
+/// the error of a `TryFrom<int|float>` impl, with the width `BigBitstring` chooses for the same number (`txt`)
+fn conv_err<D: Dec>(e: &str, txt: &str) -> String {
+    let (k, a, b) = err_facts(e);
+    let big = if k == "overflow" && D::NAME != "big" { big_len(txt) } else { 0 };
+    format!("err:{}:{}:{}:{}", k, a, b, big)
+}
+
+/// `Err` of a decimal -> primitive `TryFrom`: its text is formatted (it must not panic) and dropped
+fn okf<T, E: ErrText>(r: Result<T, E>) -> Option<T> {
+    rs(r).ok()
 }
 
 fn oans_int(v: Option<i128>) -> String {
@@ -498,12 +533,13 @@ fn run_typed<D: Dec>(req0: &[&str]) -> String {
                     (i, i as u128)
                 };
                 guard(|| match D::from_int_t(ity, vi, vu) {
-                    Some(Some(d)) => {
+                    Some(Ok(d)) => {
                         let txt = hex(d.to_string().as_bytes());
                         let le = hex(&d.le());
                         format!("ok:{} {} {}", le, txt, to_int_tok_t(d, ity))
                     }
-                    Some(None) => "none".into(),
+                    // the `TryFrom` impl reports its refusal as an error whose text C17 speaks about
+                    Some(Err(e)) => conv_err::<D>(&e, v),
                     None => "bad".into(),
                 })
             }
@@ -514,15 +550,16 @@ fn run_typed<D: Dec>(req0: &[&str]) -> String {
                     to_f_tok_t(d, fty)
                 })
             }
-            ["from_float", _, fty, bits, _ryu] => {
+            ["from_float", _, fty, bits, ryu] => {
                 let Ok(bits) = u64::from_str_radix(bits, 16) else { return "bad".into() };
+                let ryu = unhex(ryu).and_then(|b| String::from_utf8(b).ok()).unwrap_or_default();
                 guard(|| match D::from_f_t(fty, bits) {
-                    Some(Some(d)) => {
+                    Some(Ok(d)) => {
                         let txt = hex(d.to_string().as_bytes());
                         let le = hex(&d.le());
                         format!("ok:{} {} {}", le, txt, to_f_tok_t(d, fty))
                     }
-                    Some(None) => "none".into(),
+                    Some(Err(e)) => conv_err::<D>(&e, &ryu),
                     None => "bad".into(),
                 })
             }
@@ -671,6 +708,13 @@ fn run_typed<D: Dec>(req0: &[&str]) -> String {
             })
         }
         ["consts", _] => guard(|| D::consts().unwrap_or_else(|| "skip".into())),
+        // `zero()` is documented as `from(0u8)`: answered in the format of `from_int <ty> u8 0` and judged as that
+        ["zero", _] => guard(|| {
+            let d = D::zero_v();
+            let txt = hex(d.to_string().as_bytes());
+            let le = hex(&d.le());
+            format!("ok:{} {} {}", le, txt, to_int_tok(&d, "u8"))
+        }),
         _ => "bad".into(),
     }
 }
